@@ -126,6 +126,7 @@ package codec
 //@   trusted
 //@   pure
 //@   ensures err == nil ==> seq(bs) == enc_of(v, ghost(enc_epoch)) && bs != nil && len(bs) < 0x1000000000000
+//@   ensures [bv:uintkey] typeof(v) == typeid(uint) ==> err == nil && fresh(bs) && idxKey(bs, uint64(as(uint, v)))
 
 // ---------------------------------------------------------------------------
 // C22: index keys of transaction / receipt lists: key(i) = RLP(minimal big-endian of i, with a
@@ -158,8 +159,11 @@ package codec
 
 // The reflective encoder maps a uint to rlpWriter.WriteValue -> writeBytes(Uint64ToBytes(v)); the
 // dispatch through reflection is trusted, the byte layer is verifLemmaUintKey above.
-//@ func (c Codec) MarshalToBytes(v) (bs, err)
-//@   iface
+// (the clause [bv:uintkey] on MarshalToBytes above)
+
+// Decoding an index key into a *uint yields the index (inverse of the above; reflective dispatch
+// trusted, the value layer is readUintValue / SafeBytesToUint64 of C23 / C24).
+//@ func (c *bytesWrapper) UnmarshalFromBytes(b, v) (rest, err)
 //@   trusted
-//@   pure
-//@   ensures typeof(v) == typeid(uint) ==> err == nil && fresh(bs) && idxKey(bs, uint64(as(uint, v)))
+//@   modifies allcells(uint)
+//@   ensures typeof(v) == typeid(ptr_uint) && err == nil ==> (forall x uint64 :: idxKey(b, x) ==> uint64(deref(uint, as(ptr_uint, v))) == x)
